@@ -281,8 +281,10 @@ pub fn generate(seed: u64, tier: &str, release: bool) -> Vec<Value> {
                 id += 1;
             }
             if mode == "silent" && phase != "upload" {
-                // read timeout alone
+                // read timeout alone, and read timeout shorter than a long overall timeout
                 out.push(json!({"id":format!("rt-{}", id),"phase":phase,"mode":mode,"T":0,"R":300}));
+                id += 1;
+                out.push(json!({"id":format!("rt-{}", id),"phase":phase,"mode":mode,"T":6000,"R":300}));
                 id += 1;
             }
         }
